@@ -25,12 +25,12 @@ META = {
             "while running no identifier is forgotten, identifiers are never reused, the gauge equals the table size and is zero "
             "after the drain; the fan-out is global, then the still-registered observers in registration order, then the cleanup, "
             "each at most once. Tied to the code by scenarios on real loopback sessions (refused / unresolvable / black-holed "
-            "connects, accepts, peer close / reset, application close, back-pressure close, GC close, stale and live timer closes, "
+            "connects, TLS handshakes that complete / fail / hang in both roles, accepts, peer close / reset, application close, back-pressure close, GC close, stale and live timer closes, "
             "stop with commands still queued, a connect inside the drain window via hook) and by concurrent storms judged by the "
             "extracted acceptor.",
     "design_ref": "DESIGN.md §7 C02",
-    "note": "partial: TLS handshake failure paths are in the model (IoHandshake / IoFail on a handshaking session) but the harness "
-            "drives plain TCP and UDP only (C07 drives TLS sessions); 'never none while the transport keeps running' is proved as "
+    "note": "partial: TLS sessions are driven for the lifecycle only (handshake completes / fails / hangs, TLS listener with a real "
+            "OpenSSL client or a plaintext peer, handshake-timeout closes live and stale); certificate policy is C07's; 'never none while the transport keeps running' is proved as "
             "the safety invariant that an identifier is always a queued command, a table entry or closed - that the kernel "
             "eventually reports the failure of a pending connect is the OS's; restart (start after stop) is not modelled. Trusted: "
             "Coq kernel; extraction + OCaml driver (which mirrors the harness's per-operation settling and keeps the write-queue "
@@ -49,6 +49,7 @@ def gen_case(rng, udp):
     maxq = rng.choice([2, 3, 5])
     st = {"next": 3, "stopped": False, "obs": 0, "tok": 0}
     allids, live = [], []
+    tls, nodata = set(), set()     # TLS sessions: no raw peer data, no send() interposition
     ops = []
 
     def connect(kind, queued=False):
@@ -88,6 +89,29 @@ def gen_case(rng, udp):
             kind = rng.choice(kinds)
             ops.append("c:" + kind)
             connect(kind)
+        elif r < 0.30 and not udp:
+            # TLS sessions: handshake completes / fails / never progresses; TLS listener with a real client / a plaintext peer
+            kind = rng.choice(["c:tlsok", "c:tlsok", "c:tlsbad", "c:tlshang", "a:tls", "a:tls", "a:tlsbad"])
+            ops.append(kind)
+            if kind.endswith("bad") and rng.random() < 0.5:
+                ops.append("q")
+            if kind.startswith("c:"):
+                sid = st["next"]
+                st["next"] += 1
+                if not st["stopped"]:
+                    allids.append(sid)
+                    tls.add(sid)
+                    if kind == "c:tlsok":
+                        live.append(sid)
+                        nodata.add(sid)
+            elif not st["stopped"]:
+                sid = st["next"]
+                st["next"] += 1
+                allids.append(sid)
+                tls.add(sid)
+                if kind == "a:tls":
+                    live.append(sid)
+                    nodata.add(sid)
         elif r < 0.26 and udp:
             ops.append("v")
             connect("via")
@@ -98,8 +122,8 @@ def gen_case(rng, udp):
                 st["next"] += 1
                 allids.append(sid)
                 live.append(sid)
-        elif r < 0.46 and live:
-            ops.append("d:%d" % pick(rng, live))
+        elif r < 0.46 and [x for x in live if x not in nodata]:
+            ops.append("d:%d" % pick(rng, [x for x in live if x not in nodata]))
         elif r < 0.54 and live and not udp:
             sid = pick(rng, live)
             live.remove(sid)
@@ -109,12 +133,12 @@ def gen_case(rng, udp):
             ops.append("x:%d" % sid)
             if udp and sid in live:
                 live.remove(sid)     # UDP: a later datagram of that peer would be a NEW session, not data of this one
-        elif r < 0.69 and allids:
-            ops.append("s:%d" % pick(rng, allids))
-        elif r < 0.73 and allids and not udp:
-            ops.append("b:%d" % pick(rng, allids))
-        elif r < 0.76 and allids and not udp:
-            ops.append("p:%d" % pick(rng, allids))
+        elif r < 0.69 and [x for x in allids if x not in tls]:
+            ops.append("s:%d" % pick(rng, [x for x in allids if x not in tls]))
+        elif r < 0.73 and [x for x in allids if x not in tls] and not udp:
+            ops.append("b:%d" % pick(rng, [x for x in allids if x not in tls]))
+        elif r < 0.76 and [x for x in allids if x not in tls] and not udp:
+            ops.append("p:%d" % pick(rng, [x for x in allids if x not in tls]))
         elif r < 0.81 and allids:
             sid = pick(rng, allids)
             ops.append("g:%d" % sid)
@@ -127,10 +151,10 @@ def gen_case(rng, udp):
             st["obs"] += 1
         elif r < 0.95 and st["obs"]:
             ops.append("u:%d" % rng.randint(1, st["obs"]))
-        elif r < 0.98 and allids:
+        elif r < 0.97 and allids:
             st["tok"] += 1
             ops.append("m:%d:%d" % (pick(rng, allids), st["tok"]))
-        elif r < 0.99:
+        elif r < 0.995:
             ops.append("q")
         elif not st["stopped"]:
             stop_variant()
@@ -153,6 +177,7 @@ def gen_case(rng, udp):
 
 
 CORPUS = [
+    "T 2 c:tlsok;o:3;c:tlsbad;c:tlshang;t:5:h;t:3:h;a:tls;a:tlsbad;t:6:c;k:3;q;x:6;q;z;q",
     "T 2 c:ok;o:3;o:3;m:3:1;a;d:3;d:4;u:1;t:3:c;x:3;c:refused;c:hole;t:7:c;q;z;q;c:ok",
     "T 2 c:ok;a;c:hole;p:3;t:3:w;t:4:w;b:4;g:5;q;Z:c/ok,c/refused,x/3,c/hole;q",
     "T 3 c:ok;o:3;m:3:9;y;q",
